@@ -18,7 +18,7 @@ except ImportError:                          # pragma: no cover
 
 from ..core import own_walk
 from ..model import AnalysisError
-from ..report import RuleResult
+from ..report import RuleResult, norm
 
 STRUCT_REGEXES = ('STRUCT_PACK_RE', 'BYTESWAP_STRUCT_PACK_RE', 'SINGLE_STRUCT_PACK_RE', 'STRUCT_SPLIT_RE')
 REPL_TABLES = {'REPLACEMENTS_BE': 'be', 'REPLACEMENTS_LE': 'le', 'REPLACEMENTS_NE': 'ne'}
@@ -380,6 +380,86 @@ def rule_H2(ctx):
                 r.fail(g.key, n, f"accepted lengths {vals} differ from registry allowed_lengths {sorted(ref)}", loc=g.loc(n))
             else:
                 r.ok(n)
+    return r
+
+
+def rule_SFMT(ctx):
+    """struct sizes are the *standard* ones (h = 2, l = 4, q = 8 ...) only when the format starts with one of < > = !; without
+    a prefix (or with @) struct uses the platform's native sizes and alignment, so 'l' is 8 bytes on LP64.  The library's
+    documented code sizes are the standard ones (its own PACK_CODE_SIZE table), so every format handed to struct.pack /
+    unpack / calcsize / Struct must be known to carry an explicit prefix."""
+    m = ctx.m
+    r = RuleResult('SFMT', 'every struct format carries an explicit byte-order prefix (standard sizes, no native alignment)')
+    PREFIX = ('<', '>', '=', '!')
+
+    def const_prefix(e, f, depth=0):
+        """True / False / None (unknown) for: the string value of e starts with a prefix character."""
+        if isinstance(e, ast.Constant) and isinstance(e.value, str):
+            return e.value.startswith(PREFIX)
+        if isinstance(e, ast.JoinedStr) and e.values:
+            v0 = e.values[0]
+            if isinstance(v0, ast.Constant) and isinstance(v0.value, str) and v0.value:
+                return v0.value.startswith(PREFIX)
+            return None
+        if isinstance(e, ast.BinOp) and isinstance(e.op, ast.Add):
+            return const_prefix(e.left, f, depth)
+        if isinstance(e, ast.IfExp):
+            a, b = const_prefix(e.body, f, depth), const_prefix(e.orelse, f, depth)
+            return None if a is None or b is None else (a and b)
+        if isinstance(e, ast.Subscript):
+            base = e.value
+            if isinstance(base, ast.Name):
+                g = m.modglobals.get(f.mod, {}).get(base.id)
+                if g is None:
+                    for mod in m.mods:
+                        g = g or m.modglobals.get(mod, {}).get(base.id)
+                base = g if g is not None else base
+            elif isinstance(base, ast.Attribute):
+                for mod in m.mods:
+                    g = m.modglobals.get(mod, {}).get(base.attr)
+                    if g is not None:
+                        base = g
+                        break
+            if isinstance(base, ast.Dict) and base.values:
+                vals = [const_prefix(v, f, depth) for v in base.values]
+                return None if any(v is None for v in vals) else all(vals)
+            return None
+        if isinstance(e, ast.Name) and depth < 3:
+            defs = [x.value for x in own_walk(f.node) if isinstance(x, ast.Assign) and any(isinstance(t, ast.Name) and t.id == e.id for t in x.targets)]
+            if defs and e.id not in f.params():
+                vals = [const_prefix(v, f, depth + 1) for v in defs]
+                return None if any(v is None for v in vals) else all(vals)
+            return None
+        return None
+    n = 0
+    for f in m.funcs.values():
+        if f.mod == '__main__':
+            continue
+        for x in own_walk(f.node):
+            if isinstance(x, ast.Call) and isinstance(x.func, ast.Attribute) and isinstance(x.func.value, ast.Name) and x.func.value.id == 'struct' \
+                    and x.func.attr in ('pack', 'unpack', 'calcsize', 'Struct', 'pack_into', 'unpack_from', 'iter_unpack') and x.args:
+                n += 1
+                ok = const_prefix(x.args[0], f)
+                if ok:
+                    r.ok(f'{f.key}:{norm(x)[:50]}', {'instance': f.key, 'call': norm(x)[:60], 'verdict': 'explicit prefix'})
+                else:
+                    r.fail(f.key, x, f"the format given to struct.{x.func.attr} is not known to start with one of < > = !: without a prefix struct uses the "
+                           "platform's native sizes and alignment ('l' and 'L' are 8 bytes on LP64), not the standard sizes the library documents",
+                           loc=f.loc(x))
+    # module-level compiled formats
+    for mod, g in m.modglobals.items():
+        for name, v in g.items():
+            for x in ast.walk(v):
+                if isinstance(x, ast.Call) and isinstance(x.func, ast.Attribute) and isinstance(x.func.value, ast.Name) and x.func.value.id == 'struct' and x.args:
+                    n += 1
+                    st = type('S', (), {'mod': mod, 'node': ast.Module(body=[], type_ignores=[]), 'params': lambda self: []})()
+                    ok = const_prefix(x.args[0], st)
+                    if ok:
+                        r.ok(f'{mod}:{name}')
+                    else:
+                        r.fail(f'{mod}:<module>', x, f'module-level struct format of {name} without an explicit byte-order prefix', loc=f'bitstring/{mod}.py:{x.lineno}')
+    if n < 10:
+        raise AnalysisError(f'only {n} struct calls found (floor 10)')
     return r
 
 
